@@ -123,7 +123,7 @@ func ruleR27R28(c *Ctx) {
 		// every yield call must be the atom of a guard
 		guarded := map[*ast.CallExpr]bool{}
 		for _, gd := range guardsOf(info, g) {
-			call := isYieldCall(ast.Unparen(gd.atom.e))
+			call := isYieldCall(ast.Unparen(c.m.throughLocals(u, gd.atom.e)))
 			if call == nil || gd.atom.val {
 				continue
 			}
@@ -152,7 +152,37 @@ func ruleR27R28(c *Ctx) {
 						return false
 					}
 					if call := isYieldCall(x); call != nil && !guarded[call] {
-						c.r.bad("R28", fmt.Sprintf("%s yield result unused", u.Name), c.m.pos(call.Pos()), "the result of yield does not decide a branch: the sequence keeps calling back after the consumer stopped", props...)
+						// an unused result is harmless when nothing can call yield again afterwards
+						// (the last action of the pass)
+						again := false
+						after := false
+						for _, later := range b.Nodes {
+							if later == n {
+								after = true
+								continue
+							}
+							if after {
+								ast.Inspect(later, func(z ast.Node) bool {
+									if isYieldCall(z) != nil {
+										again = true
+									}
+									return true
+								})
+							}
+						}
+						for _, sc := range b.Succs {
+							for rb := range reachable(sc) {
+								if hasYield(rb) {
+									again = true
+								}
+							}
+						}
+						key := fmt.Sprintf("%s yield result unused", u.Name)
+						if again {
+							c.r.bad("R28", key, c.m.pos(call.Pos()), "the result of yield does not decide a branch: the sequence keeps calling back after the consumer stopped", props...)
+						} else {
+							c.r.ok("R28", key, c.m.pos(call.Pos()), "no yield call is reachable after this one: the pass ends whatever the consumer answered", props...)
+						}
 					}
 					if d, ok := x.(*ast.DeferStmt); ok {
 						if isYieldCall(d.Call) != nil {
@@ -191,65 +221,192 @@ func ruleR27R28(c *Ctx) {
 // call the like-named helper.
 func ruleR35(c *Ctx) {
 	m := c.m
-	want := map[string]string{"topK": "Backward", "bottomK": "All"}
-	for _, name := range []string{"bottomK", "topK"} {
-		u := m.ByName[name]
-		if u == nil {
-			c.r.undecided("R35", name+" exists", "-", "helper not found", "C05")
-			continue
+	info := m.Info
+	// ---- TopK takes the first k of the DESCENDING enumeration, BottomK of the ASCENDING one:
+	// every sequence the method (or a helper it calls, through parameters) ranges over must
+	// resolve to the Backward / All method of the tree.
+	var sourcesOf func(u *FuncUnit, bind map[*types.Var]ast.Expr, bindU *FuncUnit, depth int, out map[string]bool)
+	resolve := func(u *FuncUnit, e ast.Expr, bind map[*types.Var]ast.Expr, bindU *FuncUnit) string {
+		for i := 0; i < 6; i++ {
+			e = ast.Unparen(e)
+			if call, ok := e.(*ast.CallExpr); ok && len(call.Args) == 0 {
+				e = call.Fun // t.Backward()  /  seq()
+				continue
+			}
+			if sel, ok := e.(*ast.SelectorExpr); ok {
+				return sel.Sel.Name
+			}
+			if id, ok := e.(*ast.Ident); ok {
+				if v, _ := info.ObjectOf(id).(*types.Var); v != nil {
+					if a, has := bind[v]; has {
+						e, u, bind = a, bindU, nil
+						continue
+					}
+					if d := m.resolveLocal(u, id); d != nil {
+						e = d
+						continue
+					}
+				}
+			}
+			break
 		}
-		found := map[string]bool{}
-		var pos ast.Node = u.Decl
+		return "?"
+	}
+	sourcesOf = func(u *FuncUnit, bind map[*types.Var]ast.Expr, bindU *FuncUnit, depth int, out map[string]bool) {
+		if u == nil || u.Body == nil || depth > 3 {
+			return
+		}
 		ast.Inspect(u.Body, func(n ast.Node) bool {
-			if sel, ok := n.(*ast.SelectorExpr); ok && (sel.Sel.Name == "All" || sel.Sel.Name == "Backward") {
-				found[sel.Sel.Name] = true
-				pos = sel
+			switch x := n.(type) {
+			case *ast.RangeStmt:
+				if _, isFunc := info.TypeOf(x.X).Underlying().(*types.Signature); isFunc {
+					out[resolve(u, x.X, bind, bindU)] = true
+				}
+			case *ast.CallExpr:
+				cu := m.calleeUnit(x)
+				if cu == nil || cu == u || cu.Lit != nil {
+					return true
+				}
+				if f := m.staticCallee(x); f != nil && (f.Name() == "All" || f.Name() == "Backward") {
+					return true // the enumeration itself is checked by R09
+				}
+				// bind the callee's parameters to the caller's argument expressions
+				nb := map[*types.Var]ast.Expr{}
+				i := 0
+				if cu.Type.Params != nil {
+					for _, f := range cu.Type.Params.List {
+						for _, nm := range f.Names {
+							if v, _ := info.Defs[nm].(*types.Var); v != nil && i < len(x.Args) {
+								a := x.Args[i]
+								// an argument that is itself a bound parameter stays bound to the outer expression
+								if id, ok := ast.Unparen(a).(*ast.Ident); ok {
+									if pv, _ := info.ObjectOf(id).(*types.Var); pv != nil {
+										if outer, has := bind[pv]; has {
+											a = outer
+										}
+									}
+								}
+								nb[v] = a
+							}
+							i++
+						}
+					}
+				}
+				sourcesOf(cu, nb, u, depth+1, out)
 			}
 			return true
 		})
-		key := fmt.Sprintf("%s ranges over %s", name, want[name])
-		if len(found) == 1 && found[want[name]] {
-			c.r.ok("R35", key, m.pos(pos.Pos()), "first k of "+want[name]+"()", "C05")
-		} else {
-			c.r.bad("R35", key, m.pos(pos.Pos()), fmt.Sprintf("%s iterates %v; the first k elements of %s iteration are wanted", name, sortedKeys(found), map[string]string{"topK": "descending", "bottomK": "ascending"}[name]), "C05")
+	}
+	for _, tk := range m.Trees {
+		for meth, want := range map[string]string{"TopK": "Backward", "BottomK": "All"} {
+			u := tk.Methods[meth]
+			if u == nil {
+				continue
+			}
+			srcs := map[string]bool{}
+			sourcesOf(u, nil, nil, 0, srcs)
+			key := fmt.Sprintf("%s.%s takes the first k of %s()", tk.Name, meth, want)
+			switch {
+			case len(srcs) == 1 && srcs[want]:
+				c.r.ok("R35", key, m.pos(u.Decl.Pos()), "the only sequence ranged over, directly or in the helper it calls, is "+want+"()", "C05")
+			case len(srcs) == 0:
+				c.r.bad("R35", key, m.pos(u.Decl.Pos()), fmt.Sprintf("%s does not range over %s(): the first k elements of %s iteration are wanted, and an enumeration of its own can disagree with it", meth, want, map[string]string{"TopK": "descending", "BottomK": "ascending"}[meth]), "C05")
+			default:
+				c.r.bad("R35", key, m.pos(u.Decl.Pos()), fmt.Sprintf("%s ranges over %v; the first k elements of %s iteration are wanted", meth, sortedKeys(srcs), map[string]string{"TopK": "descending", "BottomK": "ascending"}[meth]), "C05")
+			}
 		}
 	}
-	// Minimum/Maximum return exactly the leaf found by minimum/maximum(t.root)
+	// ---- Minimum/Maximum return exactly the leaf found by minimum/maximum(t.root)
 	for _, tk := range m.Trees {
 		for meth, helper := range map[string]string{"Minimum": "minimum", "Maximum": "maximum"} {
 			u := tk.Methods[meth]
 			if u == nil {
 				continue
 			}
-			info := m.Info
 			key := fmt.Sprintf("%s.%s returns the leaf found by %s(root)", tk.Name, meth, helper)
-			// every `return …, true` must return the results of restoreKey(x) with x := helper(t.root)
+			// named results
+			var named []*types.Var
+			if u.Type.Results != nil {
+				for _, f := range u.Type.Results.List {
+					for _, nm := range f.Names {
+						if v, _ := info.Defs[nm].(*types.Var); v != nil {
+							named = append(named, v)
+						}
+					}
+				}
+			}
 			okAll, any := true, false
 			why := ""
-			ast.Inspect(u.Body, func(n ast.Node) bool {
-				rs, ok := n.(*ast.ReturnStmt)
-				if !ok || len(rs.Results) != 3 || !isConstBool(info, rs.Results[2], true) {
-					return true
-				}
-				any = true
-				kv := identVar(info, rs.Results[0])
-				var rk *ast.CallExpr
-				if kv != nil {
-					rk = c.defCallOf(u, kv)
-				}
+			checkKeyCall := func(rk *ast.CallExpr) {
 				if rk == nil || !strings.HasSuffix(m.calleeName(rk), ".restoreKey") || len(rk.Args) != 1 {
 					okAll, why = false, "the found key is not the result of restoreKey"
-					return true
+					return
 				}
-				lv := identVar(info, rk.Args[0])
-				var hc *ast.CallExpr
-				if lv != nil {
-					hc = c.defCallOf(u, lv)
-				} else if cc, ok := ast.Unparen(rk.Args[0]).(*ast.CallExpr); ok {
-					hc = cc
+				arg := ast.Unparen(m.throughLocals(u, rk.Args[0]))
+				hc, _ := arg.(*ast.CallExpr)
+				if hc == nil {
+					if lv := identVar(info, arg); lv != nil {
+						hc = c.defCallOf(u, lv)
+					}
 				}
 				if hc == nil || m.calleeName(hc) != helper || len(hc.Args) != 1 || !c.isTreeRoot(hc.Args[0]) {
 					okAll, why = false, "the restored leaf is not the result of "+helper+"(t.root)"
+				}
+			}
+			// every assignment to the key result (named result or the variable returned first)
+			keyVars := map[*types.Var]bool{}
+			if len(named) == 3 {
+				keyVars[named[0]] = true
+			}
+			ast.Inspect(u.Body, func(n ast.Node) bool {
+				switch x := n.(type) {
+				case *ast.ReturnStmt:
+					if len(x.Results) == 3 {
+						if isConstBool(info, x.Results[2], true) || (len(named) == 3 && identVar(info, x.Results[2]) == named[2]) {
+							if isConstBool(info, x.Results[2], true) {
+								any = true
+							}
+							if kv := identVar(info, x.Results[0]); kv != nil {
+								keyVars[kv] = true
+							} else if call, ok := ast.Unparen(x.Results[0]).(*ast.CallExpr); ok {
+								checkKeyCall(call)
+							}
+						}
+					}
+				case *ast.AssignStmt:
+					if len(named) == 3 {
+						for i, l := range x.Lhs {
+							if identVar(info, l) == named[2] && len(x.Rhs) == len(x.Lhs) && isConstBool(info, x.Rhs[i], true) {
+								any = true
+							}
+						}
+					}
+				}
+				return true
+			})
+			ast.Inspect(u.Body, func(n ast.Node) bool {
+				as, ok := n.(*ast.AssignStmt)
+				if !ok {
+					return true
+				}
+				for i, l := range as.Lhs {
+					v := identVar(info, l)
+					if v == nil || !keyVars[v] {
+						continue
+					}
+					if len(as.Rhs) == 1 {
+						call, _ := ast.Unparen(as.Rhs[0]).(*ast.CallExpr)
+						if call == nil && len(as.Lhs) == 1 {
+							if tv, has := info.Types[as.Rhs[0]]; has && tv.Value == nil {
+								okAll, why = false, "the found key is not the result of restoreKey"
+							}
+							continue
+						}
+						checkKeyCall(call)
+					} else if i < len(as.Rhs) {
+						call, _ := ast.Unparen(as.Rhs[i]).(*ast.CallExpr)
+						checkKeyCall(call)
+					}
 				}
 				return true
 			})
@@ -264,7 +421,7 @@ func ruleR35(c *Ctx) {
 		}
 	}
 	for _, tk := range m.Trees {
-		for meth, helper := range map[string]string{"TopK": "topK", "BottomK": "bottomK", "All": "all", "Backward": "backward"} {
+		for meth, helper := range map[string]string{"All": "all", "Backward": "backward"} {
 			u := tk.Methods[meth]
 			if u == nil {
 				continue
@@ -277,14 +434,10 @@ func ruleR35(c *Ctx) {
 				return true
 			})
 			key := fmt.Sprintf("%s.%s calls %s", tk.Name, meth, helper)
-			props := []string{"C05"}
-			if meth == "All" || meth == "Backward" {
-				props = []string{"C02"}
-			}
 			if called == helper {
-				c.r.ok("R35", key, m.pos(u.Decl.Pos()), "like-named helper", props...)
+				c.r.ok("R35", key, m.pos(u.Decl.Pos()), "like-named helper", "C02")
 			} else {
-				c.r.bad("R35", key, m.pos(u.Decl.Pos()), fmt.Sprintf("%s calls %s instead of %s", meth, called, helper), props...)
+				c.r.bad("R35", key, m.pos(u.Decl.Pos()), fmt.Sprintf("%s calls %s instead of %s", meth, called, helper), "C02")
 			}
 		}
 	}
